@@ -192,4 +192,86 @@ PROPS = {
              "distinct by sha1 of the program",
         assumptions=["no overflow/underflow in the generated streams"],
     ),
+    "C01": dict(
+        modules=["StatsCI.Properties.C01"],
+        anchors=["src/mean.rs", "src/stats.rs", "src/confidence.rs", "src/utils.rs"],
+        needs_crit=True, exact_ops=set(),
+        technique="Lean 4 theorems (exactness of the one-pass statistics and of the interval formula at exact arithmetic; which quantile is requested) + bit-level differential correspondence with an exact-rational oracle",
+        level_text="Kernel-checked theorems over the model at exact real arithmetic, for every list of n >= 2 reals, every valid confidence and every external "
+                   "quantile oracle: mean = sum/n, variance = sum (x-mean)^2/(n-1) (the clamp never fires), the request is t(n-1) at (1+L)/2 resp. L below the "
+                   "population limit and z from it on, and the result is mean -/+ c s/sqrt n as TwoSided / UpperOneSided(lo) / LowerOneSided(hi); all call styles "
+                   "agree by definition. The rounding clause rests on C08. The model run on IEEE f32/f64 is compared with the implementation (5 call styles, "
+                   "statistics) and the implementation's bounds are compared with the exact rational statistics of the data within a conditioning-aware tolerance.",
+        level_note="Trusted: Lean kernel + 3 standard axioms; statrs' quantile is an external oracle called directly by the harness for the request the model makes; "
+                   "tolerance 16 u_F (mean|x| + halfwidth (1+kappa)) with kappa = sum x^2/((n-1) s^2), domain kappa u_F <= 2^-10.",
+        rule="random samples: all n in 2..9, 60 (quick) / 400 (thorough) sizes in 10..300, sizes to 5000, both sides of the t->z switch (99 999..100 003), "
+             "long samples (150 000 quick; 10^6 thorough); 7 generator styles; f32 and f64; random and grid levels in [0.001, 0.9999]; three kinds; "
+             "distinct by sha1 of the input; all non-trivial (n >= 2, non-constant)",
+        trusted_base=["rounding: IEEE arithmetic is interpreted as reals with an abstract rounding function; overflow/underflow/NaN propagation are outside these theorems (covered by execution and by C11)"],
+        assumptions=["statrs StudentsT/Normal inverse_cdf are the true quantiles (validated under C06)"],
+    ),
+    "C04": dict(
+        modules=["StatsCI.Properties.C04"],
+        anchors=["src/comparison.rs", "src/mean.rs", "src/stats.rs"],
+        needs_crit=True, exact_ops=set(),
+        technique="Lean 4 theorems (paired = mean CI of differences for every carrier; unpaired Welch-type formula, dof >= 1, swap symmetry) + differential correspondence with exact-rational and metamorphic oracles",
+        level_text="Kernel-checked theorems: for every carrier (no arithmetic laws) Paired::ci equals Arithmetic::ci of the element-wise differences in all three "
+                   "feeding styles and unequal lengths give DifferentSampleSizes(len_a, len_b); at exact arithmetic Unpaired::ci is (ma-mb) -/+ c sqrt(sa^2/na+sb^2/nb) "
+                   "with c requested at the documented effective dof, which is >= min(na,nb)-1 >= 1; for every odd rounding function exchanging the samples negates "
+                   "and mirrors the interval. Tied to the code on random pairs of samples (equal/unequal sizes, one constant sample, variance ratios 2^+-40, f32/f64, "
+                   "six feeding styles); oracles: paired == arith(differences) bit-for-bit, swap mirrors bit-for-bit, bounds vs exact rational statistics.",
+        level_note="Trusted: Lean kernel + 3 standard axioms; statrs quantile external. Two constant samples: in real arithmetic with x/0=0 the model asks t at "
+                   "dof -2 (panic); IEEE gives NaN dof and the z branch - this difference between the RR interpretation and IEEE is stated as a theorem and "
+                   "covered by execution.",
+        rule="100 (quick) / 600 (thorough) random paired cases (every 5th with unequal lengths) and as many unpaired cases; f32 and f64; distinct by sha1 of the input",
+        trusted_base=["rounding: IEEE arithmetic is interpreted as reals with an abstract rounding function; overflow/underflow/NaN propagation are outside these theorems (covered by execution and by C11)"],
+    ),
+    "C05": dict(
+        modules=["StatsCI.Properties.C05"],
+        anchors=["src/mean.rs"],
+        needs_crit=True, exact_ops={"reject"},
+        technique="Lean 4 theorems (back-transform identities, H <= G <= A, standard errors, rejection leaves the state unchanged) + differential correspondence with back-transform oracles on the implementation's own outputs",
+        level_text="Kernel-checked theorems at exact arithmetic for positive data: Geometric::ci = exp of Arithmetic::ci of the logs (kind-wise, errors pass through), "
+                   "Harmonic::ci = reciprocal of Arithmetic::ci of the reciprocals at the flipped confidence with ends exchanged, means exp(mean ln x), 1/(mean 1/x), "
+                   "H <= G <= A, the two standard-error formulas; for every carrier a non-positive value is rejected with NonPositiveValue(value) and extend leaves "
+                   "exactly the state of the accepted prefix. Tied to the code on positive samples (wide dynamic range, near-constant, f32/f64), and a non-positive "
+                   "value (0, -0, negative, -inf, tiny) at every position of a short sample.",
+        level_note="Trusted: Lean kernel + 3 standard axioms; libm ln/exp are compared bit-for-bit (same libm on both sides), not proved correctly rounded.",
+        rule="positive samples of all sizes 2..9, 60/400 random sizes, f32 and f64, geometric and harmonic; 5 non-positive values x every position of a 6-element "
+             "sample x 2 means x 2 float types + random positions of longer samples; H<=G<=A on 60/400 samples; distinct by sha1 of the input",
+        trusted_base=["rounding: IEEE arithmetic is interpreted as reals with an abstract rounding function; overflow/underflow/NaN propagation are outside these theorems (covered by execution and by C11)"],
+    ),
+    "C09": dict(
+        modules=["StatsCI.Properties.C09"],
+        anchors=["src/mean.rs", "src/comparison.rs", "src/proportion.rs", "src/quantile.rs", "src/utils.rs"],
+        needs_crit=True, exact_ops=set(),
+        technique="Lean 4 theorems over accumulation histories (count, exact state at fl=id, rounded bound from C08, counts are sums, neutral element) + stack-machine differential correspondence against the batch computation",
+        level_text="Kernel-checked theorems over every accumulation history (tree of append / extend / merge): the count is the number of delivered observations "
+                   "for every carrier; at exact arithmetic the observable state (sum, sum of squares, n), hence mean, variance and every interval, equals that of "
+                   "from_iter of any enumeration of the multiset; for admissible rounding two histories of the same multiset differ by at most the sum of their C08 "
+                   "budgets; proportion / quantile states are exactly the component-wise sums, merging is associative and commutative with the empty state neutral. "
+                   "A parallel reduction is some tree over some arrangement of chunks, so every schedule is covered at the model level. Tied to the code by random "
+                   "programs over {new, append, extend, from_iter, clone, +, +=, query} for Arithmetic, Geometric, Harmonic, Paired, Unpaired, proportion::Stats, "
+                   "quantile::Stats (registers bit-for-bit through the hook), compared with the batch state, and a rayon reduce over 1..16 threads.",
+        level_note="Trusted: Lean kernel + 3 standard axioms. Partial for 'schedules': the runtime scheduler of a parallel reduce is not modelled; every merge tree it "
+                   "can produce is covered by the theorem and the observed result is compared with the batch result within the deepest tree's budget. The empty "
+                   "register is right-neutral only up to 2|c| + O(u)|s| when the compensation is non-zero (theorem neutral_rounded).",
+        rule="80 (quick) / 600 (thorough) random programs of up to 40-200 operations for each of 7 state types, f32 and f64, queries interleaved and repeated; "
+             "12/60 parallel reductions; distinct by sha1 of the program",
+        trusted_base=["rounding: IEEE arithmetic is interpreted as reals with an abstract rounding function; overflow/underflow/NaN propagation are outside these theorems (covered by execution and by C11)"],
+    ),
+    "C18": dict(
+        modules=["StatsCI.Properties.C18"],
+        anchors=["src/confidence.rs", "src/error.rs"], exhaustive=False, exact_ops="all",
+        technique="Lean 4 theorems (validity over reals extended with NaN and infinities; accessor, flipped and ordering laws) + differential correspondence over boundary levels",
+        level_text="Kernel-checked theorems: over the carrier of reals extended with NaN, +inf, -inf (IEEE comparison semantics) every constructor returns a value iff "
+                   "0 < level < 1 (none = the documented panic) and TryFrom returns InvalidConfidenceLevel(level) otherwise, never a panic; for every carrier level / "
+                   "percent / kind / is_* are mutually consistent, flipped is an involution preserving the level, fixing two-sided and exchanging upper and lower; "
+                   "two confidences are ordered iff of the same kind, then by level; equality is kind and level. Tied to the code on boundary levels (0, 1, their "
+                   "float neighbours, subnormals, NaN, infinities, negatives, random bit patterns), f32 conversions and all pairs of a grid of confidences.",
+        level_note="Trusted: Lean kernel + 3 standard axioms; IEEE comparison of f64 is assumed to be the XR comparison. Known finding: the enum variants are public, "
+                   "so an invalid level can be written as a literal; every constructor function and conversion is checked.",
+        rule="~60 boundary levels + 200 (quick) / 2000 (thorough) random levels x {new, new_two_sided, new_upper, new_lower, TryFrom<f64>, TryFrom<f32>}, accessor table of "
+             "24+ confidences, all ordered pairs for partial_cmp and the five operators; non-trivial = all; distinct by sha1 of the input",
+    ),
 }
